@@ -19,7 +19,7 @@ RULE = (
     "non-trivial = the screen has >=2 plates and the op is not a no-op on the model"
 )
 ASSUMPTIONS = ["revealing a set consisting only of unknown plate ids may either raise ValueError or return the screen unchanged", "refusal of all-zero values is judged only when every plate of the revealed set is all zero"]
-REQUIRED = {"reveals_with_negative_unknown_id": {"quick": 60, "thorough": 900}, "history_steps_checked": {"quick": 2500, "thorough": 40000}, "reveals_checked": {"quick": 600, "thorough": 10000}, "refusals_checked": {"quick": 100, "thorough": 1500}, "constructor_cases": {"quick": 150, "thorough": 2500}, "cli_steps": {"quick": 100, "thorough": 1500}, "earlier_stage_rechecks": {"quick": 10000, "thorough": 150000}, "branches": {"quick": 200, "thorough": 3000}, "in_place_reveals": {"quick": 150, "thorough": 2000}}
+REQUIRED = {"constructor_cases_with_unusual_values": {"quick": 40, "thorough": 600}, "reveals_with_negative_unknown_id": {"quick": 60, "thorough": 900}, "history_steps_checked": {"quick": 2500, "thorough": 40000}, "reveals_checked": {"quick": 600, "thorough": 10000}, "refusals_checked": {"quick": 100, "thorough": 1500}, "constructor_cases": {"quick": 150, "thorough": 2500}, "cli_steps": {"quick": 100, "thorough": 1500}, "earlier_stage_rechecks": {"quick": 10000, "thorough": 150000}, "branches": {"quick": 200, "thorough": 3000}, "in_place_reveals": {"quick": 150, "thorough": 2000}}
 N_HIST = {"quick": 960, "thorough": 9600}
 
 
@@ -290,7 +290,22 @@ def run_shard(rec, tier, seed, shard, nshards):
                 pass
         # (b) defaults
         kw_b = {k: v for k, v in kw.items() if k != "observation_mask"}
-        s = Screen(**kw_b)
+        if rng.random() < 0.5:
+            # given values are given values, whatever they are: NaN, 0, negative, inf on some rows or on a whole plate
+            o_ = kw_b["observations"].copy()
+            weird = [float("nan"), 0.0, -1.0, float("inf")]
+            if rng.random() < 0.5:
+                o_[pn == str(rng.choice(np.unique(pn)))] = weird[int(rng.integers(len(weird)))]
+            for _ in range(int(rng.integers(1, 4))):
+                o_[int(rng.integers(n))] = weird[int(rng.integers(len(weird)))]
+            kw_b["observations"] = o_
+            kw = dict(kw, observations=o_)
+            rec.count("constructor_cases_with_unusual_values")
+        try:
+            s = Screen(**kw_b)
+        except Exception as e:
+            rec.violation("C12/constructor/observations-without-mask-not-all-observed", "observations given without a mask were refused: %r" % (e,), {"observations": kw_b["observations"].tolist()[:30], "plates": pn.tolist()[:30]})
+            continue
         rec.case(("ctor-default-obs", n))
         rec.count("constructor_cases")
         rec.check(bool(np.all(s.observation_mask)) and s.observation_mask.shape == (n,) and kit.bytes_equal(s.observations, kw["observations"]), "C12/constructor/observations-without-mask-not-all-observed", "observations without a mask are not all observed / values changed", None)
